@@ -180,7 +180,10 @@ temporary_stack_initializer::temporary_stack_initializer(std::size_t initial_siz
 {
     FOONATHAN_MEMORY_VERIF_POINT(8, temp_stack); // thread-local pointer read
     if (!temp_stack)
+    {
         temp_stack = temporary_stack_list_obj.create(initial_size);
+        (void)&thread_exit_detector; // ODR-use it, so the stack is released on thread exit
+    }
 }
 
 temporary_stack_initializer::~temporary_stack_initializer() noexcept
@@ -199,7 +202,10 @@ temporary_stack& foonathan::memory::get_temporary_stack(std::size_t initial_size
 {
     FOONATHAN_MEMORY_VERIF_POINT(9, temp_stack); // thread-local pointer read
     if (!temp_stack)
+    {
         temp_stack = temporary_stack_list_obj.create(initial_size);
+        (void)&thread_exit_detector; // ODR-use it, so the stack is released on thread exit
+    }
     return *temp_stack;
 }
 
